@@ -45,7 +45,7 @@ class Prop(PropBase):
     id = 'C14'
     coq_imports = ['PV.Model.PyScope']
     props_file = 'theories/Props/C14.v'
-    n_cases = {'quick': 800, 'thorough': 30000}
+    n_cases = {'quick': 800, 'thorough': 22000}
     rule = ('cases = a context (1-7 keys from a pool that includes names shadowing builtins, imports and '
             'save; int/str/bool/None/list values, lists shared between keys or nested) plus either 1-3 !py '
             'expressions evaluated in sequence on one Context (optionally after a pyimport step) or one '
@@ -249,6 +249,8 @@ class Prop(PropBase):
     def mon_saved_values(self, case, obs):
         """save('x') after a plain `x = <literal>` (x bound nowhere else) must put that literal in context;
         so must save(k=<literal>)."""
+        if obs.get('too_big'):
+            return []            # values were elided from the observation
         block = case['block']
         lit = ('int', 'str', 'bool', 'none')
         binders = {}
